@@ -68,6 +68,13 @@ pub fn compare(ctx: &Ctx, prog: &[S], opts: &CmpOpts) -> Outcome {
             if real.out.len() < rf.out.len() || real.out[..rf.out.len()] != rf.out[..] {
                 return mk("output-differs-before-unspecified-point", json!(why));
             }
+            if *why == refsem::DEEP {
+                let stack = refsem::err_kinds().stack;
+                if !matches!(&real.end, End::RuntimeError(m) if m == stack) {
+                    return mk("infinite-recursion-not-reported-as-stack-overflow", json!(why));
+                }
+                return Outcome::ok("agree:error(Stack overflow)", true);
+            }
             Outcome::ok(format!("skip:unspecified({why})"), false)
         }
         RefEnd::Normal | RefEnd::Error(_) => {
